@@ -135,3 +135,10 @@ PROPS["C20"] = {"level": "exploration",
     "level_note": "Trusted: serde field names of the private mass fields; the harness's statement of each option's documented side effect (harness/src/mon/mass.rs). The pyo3-only mass/specific getters are not observed (cannot be linked); the underlying fields are.",
     "floors": {"quick": {"distinct_nontrivial": 200, "obs.component_invariants_checked": 20000, "obs.loco_invariants_checked": 10000, "obs.loco_rejected_calls": 2000, "obs.consists": 1000, "obs.trains_built": 500},
                "thorough": {"distinct_nontrivial": 10000, "obs.loco_invariants_checked": 500000}}}
+
+PROPS["C17"] = {"level": "fault_enumeration", "exhaustive": True,
+    "technique": "checkpoint enumeration under a runtime monitor: every step index of short simulations x {yaml,json,bincode} x simulation kind is a save/load/resume point whose continuation is compared with the uninterrupted run; every exported type in default/valid/generated state is round-tripped twice per format (drift, data equality)",
+    "level_text": "For each generated short simulation the set of checkpoint positions is enumerated completely (every step index, every format); verdict per checkpoint is equality of the resumed and the uninterrupted final objects. Object shapes are sampled, so the claim is exhaustive per simulation, exploratory across simulations.",
+    "level_note": "Trusted: serde_yaml value comparison as the notion of equality (bitwise for yaml/bincode, 4e-16 relative per number right after a json load, 1e-9 after resuming a json-loaded simulation). Known findings (bincode with omitted default/None fields, json with non-finite numbers) are keyed on the omitted field / the non-finite field.",
+    "floors": {"quick": {"distinct_nontrivial": 300, "obs.roundtrips": 20000, "obs.checkpoints": 10000, "obs.sim_runs.LocomotiveSimulation": 20, "obs.sim_runs.ConsistSimulation": 20, "obs.sim_runs.SetSpeedTrainSim": 20, "obs.sim_runs.SpeedLimitTrainSim": 10},
+               "thorough": {"distinct_nontrivial": 15000, "obs.checkpoints": 500000}}}
